@@ -5,10 +5,12 @@ import (
 	"os"
 
 	"verif/internal/c02"
+	"verif/internal/c03"
 )
 
 func init() {
 	monitors["C02"] = c02.Run
+	monitors["C03"] = c03.Run
 }
 
 // workerMain dispatches crash-isolated child workers (C13, C14, C15).
